@@ -4,6 +4,7 @@
 // private version counters and the contents.  Each case runs in a forked child.
 #include "private_access.h"
 #include <unistd.h>
+#include <signal.h>
 #include <sys/wait.h>
 #include <sys/resource.h>
 #include "momo/HashMultiMap.h"
@@ -289,8 +290,10 @@ static std::string dispatch(const std::string& line)
 int main()
 {
 	std::string line;
+	int timedOut = 0;
 	while (std::getline(std::cin, line))
 	{
+		if (timedOut >= 6) { printf("CRASH skipped (6 cases already ran into the 10 s limit)\n"); continue; }
 		int fd[2];
 		if (pipe(fd) != 0) return 3;
 		fflush(stdout);
@@ -301,7 +304,7 @@ int main()
 #if !defined(__SANITIZE_ADDRESS__)
 			struct rlimit rl; rl.rlim_cur = rl.rlim_max = rlim_t(2) << 30; setrlimit(RLIMIT_AS, &rl);
 #endif
-			alarm(30);
+			alarm(10);
 			close(fd[0]);
 			std::string res = dispatch(line);
 			if (write(fd[1], res.data(), res.size()) < 0) _exit(4);
@@ -312,6 +315,7 @@ int main()
 		while ((k = read(fd[0], buf, sizeof buf)) > 0) res.append(buf, size_t(k));
 		close(fd[0]);
 		int st = 0; waitpid(pid, &st, 0);
+		if (WIFSIGNALED(st) && WTERMSIG(st) == SIGALRM) ++timedOut;
 		if (WIFSIGNALED(st)) res = "CRASH signal " + std::to_string(WTERMSIG(st));
 		else if (WEXITSTATUS(st) != 0) res = "CRASH exit " + std::to_string(WEXITSTATUS(st));
 		printf("%s\n", res.c_str());
